@@ -158,6 +158,14 @@ def real_load(schema, text, url="file:///zcvroot/main.conf", overrides=(), hname
     return ["ok"], cfg, handler
 
 
+def real_load_path(schema, path, overrides=()):
+    try:
+        cfg, handler = ZConfig.loadConfig(schema, path, overrides=list(overrides))
+    except Exception as e:
+        return classify_exc(e), None, None
+    return ["ok"], cfg, handler
+
+
 def subtypes_table(schema):
     out = []
     for n in schema.gettypenames():
@@ -168,10 +176,7 @@ def subtypes_table(schema):
 
 
 def model_load_request(elab, lines, url="file:///zcvroot/main.conf", overrides=(), pkgs=(), resources=(), resolve=(), env=()):
-    ovs = []
-    for spec in overrides:
-        opt, val = spec.split("=", 1)
-        ovs.append([opt.split("/"), val])
+    ovs = list(overrides)
     return [Atom("load"), elab, list(pkgs), list(resources), list(resolve), list(env), url, list(lines), ovs]
 
 
